@@ -219,6 +219,16 @@ theorem forged_log_counterexample :
     Backed p ∧ ¬ Backed (forgedLog p 7 500) := by
   simp [Backed, forgedLog, modAddr]
 
+/-- the second recorded finding on the model: a holder of a token whose `transfer` approves a third address on the
+    recipient sends 200 tokens to the module address; the hook (which, unlike the message path, does not look for
+    Approval events) mints 200 coins; the approved address empties the escrow — 200 coins are backed by nothing -/
+theorem hook_ignores_approvals_counterexample :
+    let p : Pair := { external := true, enabled := true, escrow := 0, coinSupply := 0, coinBal := fun _ => 0,
+                      tokSupply := 1000, tokBal := fun a => if a = 1 then 1000 else 0 }
+    let q := (step p (.transfer 1 modAddr 200)).1
+    Backed p ∧ Backed q ∧ q.coinSupply = 200 ∧ ¬ Backed (drainEscrow q 9 200) := by
+  simp [Backed, step, drainEscrow, modAddr, upd]
+
 example : Backed { external := false, enabled := true, escrow := 5, coinSupply := 9, coinBal := fun _ => 3,
                    tokSupply := 5, tokBal := fun _ => 1 } := by simp [Backed]
 
